@@ -13,7 +13,7 @@ import (
 
 func init() { register("C05", true, false, checkC05) }
 
-const c05Explanation = `Decided statically for every record type: (R1) no field is lost between text and record: the transitive read set of String (through the interprocedural effect analysis E2) contains every wire field of the type and the transitive write set of parse contains every wire field, except the listed derived-length fields and the types without a presentation format; (R2) mnemonic tables are re-readable: every type / class / algorithm mnemonic is unique and is a fixed point of the upper-casing the parsers apply before looking it up; the TYPE / CLASS prefixes and the \# token the printers emit are the ones the lexer and parsers look for; (R3) character-strings are printed through the quoting helpers (sprintTxt / sprintTxtOctet) whose escape set contains the quote and the backslash and everything non-printable; the SVCB value printer escapes at least '"', '\\', ';' and ' ' and everything outside the printable range; (R4) type bitmaps (NSEC, NSEC3, CSYNC) print every type through Type.String (which covers unknown types as TYPEnnn) and record types are printed through Type/Class String; names are never case-folded on output. NOT decided: octet-identical RDATA after a round trip, numeric formatting (TTL overflow guard, LOC arithmetic), escape interaction with 255-octet splitting: value-level.`
+const c05Explanation = `Decided statically for every record type: (R1) no field is lost between text and record: the transitive read set of String (through the interprocedural effect analysis E2) contains every wire field of the type and the transitive write set of parse contains every wire field, except the listed derived-length fields and the types without a presentation format; (R2) mnemonic tables are re-readable: every type / class / algorithm mnemonic is unique and is a fixed point of the upper-casing the parsers apply before looking it up; the TYPE / CLASS prefixes and the \# token the printers emit are the ones the lexer and parsers look for; (R3) character-strings are printed through the quoting helpers (sprintTxt / sprintTxtOctet) whose escape set contains the quote and the backslash and everything non-printable; the SVCB value printer escapes at least '"', '\\', ';' and ' ' and everything outside the printable range; (R4) type bitmaps (NSEC, NSEC3, CSYNC) print every type through Type.String (which covers unknown types as TYPEnnn) and record types are printed through Type/Class String; names are never case-folded on output; (R5) the TTL parser accepts exactly the 32-bit range; (R6) length octets that parse derives from a blob (NSEC3/NSEC3PARAM salt, HIP HIT and key) are computed at full width and narrowed last; the numeric forms TYPEnnn / CLASSnnn are read back over the whole 16-bit range and put the lexer into the same state as a mnemonic. NOT decided: octet-identical RDATA after a round trip, numeric formatting (TTL overflow guard, LOC arithmetic), escape interaction with 255-octet splitting: value-level.`
 
 // fields that String need not read / parse need not write, with reasons (DESIGN.md Appendix D)
 var textCoverExceptions = map[string]string{
@@ -42,6 +42,8 @@ func checkC05(c *Ctx, r *Report) {
 	c05R3(c, r)
 	c05R4(c, r)
 	c05R5(c, r)
+	c05R6(c, r)
+	c05R2b(c, r)
 }
 
 // c05R5: numeric limit agreement: the TTL parser accepts exactly the range the 32-bit header field (and its printer) has.
